@@ -238,10 +238,13 @@ class SimulatorBase(
         ):
             # The split cut through a moment: each half would be given the noise of that moment.
             prefix, general_suffix = resolved_circuit[0:0], resolved_circuit
+        # Without noise nothing needs the extra argument: simulators that override
+        # `_core_iterator` with the signature it had before are then still served.
+        noise_kw: dict[str, Any] = (
+            {} if self.noise is devices.NO_NOISE else {'noise_qubits': qubits}
+        )
         step_result: TStepResultBase | None = None
-        for step_result in self._core_iterator(
-            circuit=prefix, sim_state=sim_state, noise_qubits=qubits
-        ):
+        for step_result in self._core_iterator(circuit=prefix, sim_state=sim_state, **noise_kw):
             pass
         assert step_result is not None
 
@@ -251,7 +254,7 @@ class SimulatorBase(
                 circuit=general_suffix,
                 sim_state=sim_state,
                 all_measurements_are_terminal=True,
-                noise_qubits=qubits,
+                **noise_kw,
             ):
                 pass
             assert step_result is not None
@@ -267,7 +270,7 @@ class SimulatorBase(
                 sim_state=(
                     sim_state.copy(deep_copy_buffers=False) if i < repetitions - 1 else sim_state
                 ),
-                noise_qubits=qubits,
+                **noise_kw,
             ):
                 pass
             for k, r in step_result._classical_data.records.items():
